@@ -523,11 +523,13 @@ pub fn print_expr(e: &E) -> String {
             format!("{}.{m}({})", p(r), args.iter().map(print_expr).collect::<Vec<_>>().join(", "))
         }
         E::Return(None) => "return".into(),
-        E::Return(Some(x)) => format!("return {}", print_expr(x)),
+        // the operand of return/accept/reject cannot start with `if`, `match`
+        // or a block in the grammar: parenthesise those
+        E::Return(Some(x)) => format!("return {}", print_operand(x)),
         E::Accept(None) => "accept".into(),
-        E::Accept(Some(x)) => format!("accept {}", print_expr(x)),
+        E::Accept(Some(x)) => format!("accept {}", print_operand(x)),
         E::Reject(None) => "reject".into(),
-        E::Reject(Some(x)) => format!("reject {}", print_expr(x)),
+        E::Reject(Some(x)) => format!("reject {}", print_operand(x)),
         E::Ctor(path, v, args) => {
             let head = if path.is_empty() { v.clone() } else { format!("{path}.{v}") };
             if args.is_empty() {
@@ -574,7 +576,13 @@ pub fn print_expr(e: &E) -> String {
                 match part {
                     FPart::Text(t) => s.push_str(&esc_str(t).replace('{', "{{").replace('}', "}}")),
                     FPart::Expr(e) => {
-                        let _ = write!(s, "{{{}}}", print_expr(e));
+                        // `{{` would be the escape for a literal brace
+                        let t = print_expr(e);
+                        if t.starts_with('{') {
+                            let _ = write!(s, "{{({t})}}");
+                        } else {
+                            let _ = write!(s, "{{{t}}}");
+                        }
                     }
                 }
             }
@@ -585,6 +593,15 @@ pub fn print_expr(e: &E) -> String {
         E::Compound(path, op, x) => format!("{} {}= {}", path.join("."), op.sym(), print_expr(x)),
         E::While(c, b) => format!("while {} {}", print_cond(c), print_block(b)),
         E::For(v, l, b) => format!("for {v} in {} {}", print_cond(l), print_block(b)),
+    }
+}
+
+fn print_operand(e: &E) -> String {
+    match e {
+        E::If(..) | E::Match(..) | E::Block(..) | E::While(..) | E::For(..) | E::Rec(None, _) => {
+            format!("({})", print_expr(e))
+        }
+        _ => print_expr(e),
     }
 }
 
